@@ -8,10 +8,14 @@ other, so a crash inside `commit_changes` / `reorg` leaves every table either un
 write index - each case is covered.  The write order these theorems rely on (value row before the deletion of an
 old history) is the order after the `fix:` recorded as F18; `crash_in_reorg_scenario_recovers` replays the former
 counterexample.
+For every REACHABLE engine state the side conditions of the engine-level theorems are derived (last section;
+Proofs/ReachCrash.lean): what remains is a block boundary, a target below the durable height (`n0 < durNext`), the
+engine's own depth test, and the proviso of finding F10 for the two pending-pool tables.
 Not covered: OS / power-loss durability of un-synced WAL data, torn RocksDB internals.
 -/
 import Brc20.Proofs.Crash
 import Brc20.Proofs.NodeCrash
+import Brc20.Proofs.ReachCrash
 import Brc20.Gen.Tables
 
 namespace Brc20
@@ -126,5 +130,104 @@ theorem C04.commit_order_is_the_sources :
     commitOrderT = Gen.commitVersioned.filterMap (fun i => allTIds[i]?) ∧
     commitOrderB = Gen.commitBlock.filterMap (fun i => allBIds[i]?) ∧
     reorgOrderT = Gen.reorgVersioned.filterMap (fun i => allTIds[i]?) := by decide
+
+/-! ### The engine, every reachable state
+
+The theorems above assume `NodeSim n g` and the side conditions `hw hdur habove hlat hrow hdeep hmax`.  For every node
+reachable by any sequence of calls (`Node.ReachG n G`: the empty node, then any operation with any arguments and any
+recorded events the model answers `ok` / `err` to; `G.s i` the plain log of table `i`, `G.d i` that log as of the last
+commit point) they are all DERIVED (Proofs/ReachCrash.lean), from
+  * a block boundary (`commit` and `reorg` are refused otherwise),
+  * `n0 < durNext`: block `n0` was persisted by a completed commit (`durNext` = the height a restart continues at,
+    read off the persisted hash rows),
+  * the engine's own depth test on the written-through `max_block_number` row,
+  * the proviso of finding F10 for the two pending-pool tables (not needed with one block of slack in the depth test).
+The key invariant is `Node.DInv`: every recorded write carries the height being built, which never drops below
+`durNext` between commit points, so the current log and the durable log of every key agree below `durNext`. -/
+
+open Node in
+/-- **The durability hypothesis holds on every reachable node** for every target below the durable height: nothing
+written since the last commit point is visible there; every pending block row lies above it; its block rows are on
+disk.  (`(G.s i).dur`, the table-level durable log, is `(G.d i).cur`, the node-level log as of the last commit.) -/
+theorem C04.durable_below_durNext (n : Node) (G : Ghost) (hr : ReachG n G) (n0 : Nat) (hn0 : n0 < n.durNext) :
+    (∀ i k, ((G.s i).cur k).valAt n0 = ((G.s i).dur k).valAt n0) ∧
+    (∀ i, (G.s i).dur = (G.d i).cur) ∧
+    (∀ i, ∀ p ∈ (n.b i).cache, n0 < p.1) ∧
+    (∀ i, (n.b i).db.get? n0 ≠ none) ∧
+    n.durNext ≤ n.nextHeight := by
+  obtain ⟨h1, h2, _, h4⟩ := hr.crash_hyps hn0
+  exact ⟨h1, fun i => (hr.dur_is_d i).1, h2, h4, hr.dinv.dn_le⟩
+
+open Node in
+/-- **Crash at any write of an engine commit, every reachable state.**  After the crash at global write `j` (any
+`j`) and the reopen, `brc20_reorg(n0)` is accepted and answers `ok`; every versioned table reads, for every key, its
+value at the end of block `n0`; every block table holds exactly the persisted rows `≤ n0`; nothing is under
+construction; the node stands at height `n0`. -/
+theorem C04.engine_crash_in_commit_recoverable_reachable (n : Node) (G : Ghost) (hr : ReachG n G)
+    (hw : n.lbi.waiting = 0) (j n0 : Nat) (hn0 : n0 < n.durNext) (hmax : n.maxBlock.getD 0 ≤ W + n0)
+    (hpool : ∀ i, i ∈ poolTables → (G.s i).maxEver ≤ n0 + W) :
+    ∃ r, (n.crashCommitAt j).reorg n0 = (r, .ok) ∧ RestoredAt n G.s n0 r ∧
+      r.latestHeight = n0 ∧ r.nextHeight = n0 + 1 :=
+  hr.crash_in_commit_recoverable hw j n0 hn0 hmax hpool
+
+open Node in
+/-- The same with one block of slack in the depth test and no proviso on the pool tables. -/
+theorem C04.engine_crash_in_commit_recoverable_reachable_slack (n : Node) (G : Ghost) (hr : ReachG n G)
+    (hw : n.lbi.waiting = 0) (j n0 : Nat) (hn0 : n0 < n.durNext) (hmax : n.maxBlock.getD 0 < W + n0) :
+    ∃ r, (n.crashCommitAt j).reorg n0 = (r, .ok) ∧ RestoredAt n G.s n0 r ∧
+      r.latestHeight = n0 ∧ r.nextHeight = n0 + 1 :=
+  hr.crash_in_commit_recoverable_slack hw j n0 hn0 hmax
+
+open Node in
+/-- The same for any order in which the engine might commit its tables (each table once). -/
+theorem C04.engine_crash_in_commit_recoverable_reachable_any_order (n : Node) (G : Ghost) (hr : ReachG n G)
+    (hw : n.lbi.waiting = 0) (ob : List BId) (ot : List TId) (ndb : ob.Nodup) (ndt : ot.Nodup)
+    (hob : ∀ i, i ∈ ob) (hot : ∀ i, i ∈ ot) (j n0 : Nat) (hn0 : n0 < n.durNext)
+    (hmax : n.maxBlock.getD 0 ≤ W + n0) (hpool : ∀ i, i ∈ poolTables → (G.s i).maxEver ≤ n0 + W) :
+    ∃ r, (n.crashCommitAtIn ob ot j).reorg n0 = (r, .ok) ∧ RestoredAt n G.s n0 r ∧
+      r.latestHeight = n0 ∧ r.nextHeight = n0 + 1 :=
+  hr.crash_in_commit_recoverable_any_order hw ob ot ndb ndt hob hot j n0 hn0 hmax hpool
+
+open Node in
+/-- **Crash anywhere inside an accepted `brc20_reorg(m)`, every reachable state**: at any write `j` of its table
+phase (`crashReorgAt`), or at any write `j` of the commit that ends it (`n2.crashCommitAt`, `n2` = the node after
+the table and block phases: `(n.reorg m).1 = n2.commitAll`).  Reopen and `brc20_reorg(n0)` for any durable `n0 ≤ m`
+inside the depth test: restored to `n0`. -/
+theorem C04.engine_crash_in_reorg_recoverable_reachable (n : Node) (G : Ghost) (hr : ReachG n G) (m : Nat)
+    (hok : (n.reorg m).2 = .ok) (n0 : Nat) (hnm : n0 ≤ m) (hn0 : n0 < n.durNext)
+    (hmax : n.maxBlock.getD 0 ≤ W + n0) (hpool : ∀ i, i ∈ poolTables → (G.s i).maxEver ≤ n0 + W) :
+    (∀ j, ∃ r, (n.crashReorgAt m j).reorg n0 = (r, .ok) ∧ RestoredAt n G.s n0 r ∧
+      r.latestHeight = n0 ∧ r.nextHeight = n0 + 1) ∧
+    ∃ n2 : Node, (n.reorg m).1 = n2.commitAll ∧
+      ∀ j, ∃ r, (n2.crashCommitAt j).reorg n0 = (r, .ok) ∧ RestoredAt n G.s n0 r ∧
+        r.latestHeight = n0 ∧ r.nextHeight = n0 + 1 :=
+  hr.crash_in_accepted_reorg_recoverable m hok n0 hnm hn0 hmax hpool
+
+open Node in
+/-- A crash with no write in flight is a reopen. -/
+theorem C04.engine_crash_before_first_write (n : Node) : n.crashCommitAt 0 = n.reopen := rfl
+
+open Node in
+/-- **A crash outside commit / reorg loses only uncommitted work, every reachable state**: every table reads, for
+every key, the log as of the last commit point; the block tables hold exactly the blocks below `durNext`, where the
+node stands; nothing is under construction; the reopened node is reachable (with logs `G.clear`), so every theorem
+about reachable nodes applies to it. -/
+theorem C04.engine_crash_outside_commit_reachable (n : Node) (G : Ghost) (hr : ReachG n G) :
+    (∀ i k, ((n.crashCommitAt 0).t i).latest k = (G.d i).read k) ∧
+    (∀ i k, (G.d i).read k = ((G.s i).dur k).latest) ∧
+    (∀ i k, ((n.crashCommitAt 0).b i).get k = (n.b i).db.get? k) ∧
+    (∀ i k, ((n.crashCommitAt 0).b i).get k ≠ none ↔ k < n.durNext) ∧
+    (n.crashCommitAt 0).nextHeight = n.durNext ∧ (n.crashCommitAt 0).lbi = {} ∧
+    ReachG (n.crashCommitAt 0) G.clear :=
+  hr.crash_outside_commit
+
+/-- Non-vacuity: a concrete reachable node (genesis, commit, a parked transaction, a block with a call, a mined
+block) to which the reachable-state theorems apply for every crash point; cut at write 12 its tables are torn
+(`ReachCrashExample` in Proofs/ReachCrash.lean), and `reorg 0` restores block 0. -/
+theorem C04.reachable_example_recovers (j : Nat) :
+    Node.ReachG ReachCrashExample.st.1 ReachCrashExample.st.2 ∧
+    ∃ r, (ReachCrashExample.st.1.crashCommitAt j).reorg 0 = (r, .ok) ∧
+      Node.RestoredAt ReachCrashExample.st.1 ReachCrashExample.st.2.s 0 r ∧ r.latestHeight = 0 ∧ r.nextHeight = 1 :=
+  ⟨ReachCrashExample.st_reach, ReachCrashExample.recovers j⟩
 
 end Brc20
